@@ -809,6 +809,16 @@ More4 == <<
     [Var |-> SimpleVar, OpenBracketTkn |-> Tk("{"), Dim |-> Ch("expr", 0), CloseBracketTkn |-> Tk("}")]),
   V("ExprStaticPropertyFetch/varvar", "ExprStaticPropertyFetch", {"expr", "var"}, "both", L.atom, TRUE,
     [Class |-> Ch("name", 0), DoubleColonTkn |-> Tk("::"), Prop |-> VarOf(SimpleVar)]),
+  \* variable variables of two and three levels as member names (the PHP 5 grammar has a production of its own for them:
+  \* variable_without_objects)
+  V("ExprStaticPropertyFetch/varvar3", "ExprStaticPropertyFetch", {"expr", "var"}, "both", L.atom, TRUE,
+    [Class |-> Ch("name", 0), DoubleColonTkn |-> Tk("::"), Prop |-> VarOf(VarOf(SimpleVar))]),
+  V("ExprPropertyFetch/varvar", "ExprPropertyFetch", {"expr", "var"}, "both", L.atom, FALSE,
+    [Var |-> SimpleVar, ObjectOperatorTkn |-> Tk("->"), Prop |-> VarOf(SimpleVar)]),
+  V("ExprPropertyFetch/varvar3", "ExprPropertyFetch", {"expr", "var"}, "both", L.atom, FALSE,
+    [Var |-> SimpleVar, ObjectOperatorTkn |-> Tk("->"), Prop |-> VarOf(VarOf(SimpleVar))]),
+  V("ExprStaticCall/varvarname3", "ExprStaticCall", {"expr", "deref"}, "both", L.atom, FALSE,
+    [Class |-> Ch("name", 0), DoubleColonTkn |-> Tk("::"), Call |-> VarOf(VarOf(SimpleVar)), OpenParenthesisTkn |-> Tk("("), Args |-> Args, CloseParenthesisTkn |-> Tk(")")]),
   V("ExprStaticCall/varvar", "ExprStaticCall", {"expr", "deref"}, "both", L.atom, FALSE,
     [Class |-> SimpleVar, DoubleColonTkn |-> Tk("::"), Call |-> SimpleVar, OpenParenthesisTkn |-> Tk("("), Args |-> Args, CloseParenthesisTkn |-> Tk(")")]),
   V("ExprBrackets/yield", "ExprBrackets", {"expr"}, "both", L.atom, FALSE,
